@@ -199,9 +199,8 @@ func cmdCheck(args []string) int {
 			if ro.Error != "" {
 				r.err = ro.Error
 			}
-			if verbose {
-				fmt.Fprintf(os.Stderr, "[%s] done in %.1fs\n", o.ID, r.wall)
-			}
+			_ = verbose
+			fmt.Fprintf(os.Stderr, "[%s] done in %.1fs\n", o.ID, r.wall)
 		}(i, o)
 	}
 	wg.Wait()
